@@ -129,6 +129,24 @@ func execLarge(prop string) func(largeCase, core.Source) core.Result {
 				same()
 				l.AppendValue(-7) // a sorted list that got one more value
 				model = append(model, -7)
+				// searching a long list: the value that stands at the very end only, next to absent ones (asked several
+				// times: an answer must not depend on anything but the list and the operand)
+				stage = "AppendValue at the end of a sorted list"
+				L := col.List[int](n)
+				for round := 0; round < 8; round++ {
+					switch {
+					case !l.ContainsAny(L.MakeFromArray([]int{-1000, -7})):
+						fail("ContainsAny([-1000 -7]) = false although -7 is the last value")
+					case !l.ContainsAll(L.MakeFromArray([]int{model[0], -7})):
+						fail("ContainsAll([%d -7]) = false although both are in the list", model[0])
+					case l.ContainsAny(L.MakeFromArray([]int{-1000, -1001})):
+						fail("ContainsAny([-1000 -1001]) = true")
+					case l.ContainsAll(L.MakeFromArray([]int{-7, -1000})):
+						fail("ContainsAll([-7 -1000]) = true")
+					case !l.ContainsValue(-7) || l.GetIndex(-7) != len(model):
+						fail("ContainsValue(-7) = %v, GetIndex(-7) = %d, expected true and %d", l.ContainsValue(-7), l.GetIndex(-7), len(model))
+					}
+				}
 				l.SortValues()
 				sort.Ints(model)
 				stage = "AppendValue and SortValues again"
